@@ -45,7 +45,7 @@ def targeted_exprs():
             out += [[o1, x, [o2, y, z]], [o1, [o2, x, y], z], [o2, x, [o1, y, z]], [o2, [o1, x, y], z]]
     out += [['neg', ['add', x, y]], ['neg', ['mul', x, y]], ['mul', ['neg', x], y], ['not', ['and', x, y]], ['not', ['eq', x, y]],
             ['access', ['add', x, y], S('k')], ['if', x, y, ['add', z, x]], ['add', ['if', x, y, z], x], ['add', x, ['if', x, y, z]]]
-    for k in ['k', 'if', 'true', 'principal', 'in', 'like', 'x y', '', 'é', '1a', '_a', 'a_1', '__cedar', 'has', 'is', 'then', 'else', '"', '\\', '\n', '\x00', ' ']:
+    for k in ['k', 'if', 'true', 'principal', 'in', 'like', 'x y', '', 'é', '1a', '_a', 'a_1', '__cedar', 'has', 'is', 'then', 'else', '"', '\\', '\n', '\x00', ' ', 'role ', ' flag', '\ta', 'a\n', 'a\r\n', 'role//x', 'a/*b*/', '/**/a', 'a // c', ' a ', 'a\u00a0', 'a.b', 'a::b', 'a(', 'a-b', 'A1_', '\uff41']:
         out += [['access', C, S(k)], ['has', C, S(k)], ['mkrec', [S(k), a]]]
     for s_ in ['', 'a', '"', '\\', "'", '\n\r\t', '\x00', '\x1f', '\x7f', '\x80', 'é', ' ', '﻿', '�', '\U0001f600', '*', '\\*', 'a*b', '́', 'ﬁ']:
         out += [lit(gen.vstr(s_)), ['like', lit(gen.vstr('x')), ['pat', S(s_)]], ['like', lit(gen.vstr('x')), ['pat', ['w'], S(s_), ['w']]],
